@@ -235,6 +235,18 @@ func kqHistory(rng *rand.Rand, o kqOpts) (rep kqReport) {
 		}
 		return false
 	}
+	// entries the backend could not open at Add time (pipes, dangling symlinks): recorded now, because the
+	// directory's watch may be removed by the very first step, before the per-step scan sees it
+	for d, pre := range watched {
+		ents, _ := os.ReadDir(d)
+		for _, e := range ents {
+			pp := filepath.Join(d, e.Name())
+			if fi, err := os.Lstat(pp); err == nil && unwatchable(pp, fi) {
+				everUnwatchable[pre+"/"+e.Name()] = true
+				everUnwatchable[pp] = true
+			}
+		}
+	}
 	// a user watch on a single file (added through a symlink) reports under its spelling
 	fileEv := func(p, op string) {
 		if sp, ok := fileWatch[p]; ok {
@@ -437,6 +449,7 @@ func kqHistory(rng *rand.Rand, o kqOpts) (rep kqReport) {
 				pp := filepath.Join(d, e.Name())
 				if fi, err := os.Lstat(pp); err == nil && unwatchable(pp, fi) {
 					everUnwatchable[pre+"/"+e.Name()] = true
+					everUnwatchable[pp] = true // the tables of a watch added through a symlink are keyed by the real path
 				}
 			}
 		}
@@ -824,7 +837,7 @@ func kqHistory(rng *rand.Rand, o kqOpts) (rep kqReport) {
 					kind = "K3-link-watch-target-deleted"
 				}
 			}
-			report(kind, fmt.Sprintf("after removing every user watch: %d descriptors open, tables wd=%d path=%d byDir=%d (index keys %d) seen=%d byUser=%q", nv, len(st.Wd), len(st.Path), st.ByDir, st.ByDirKeys, len(st.Seen), trimAll(st.ByUser, tmp)))
+			report(kind, fmt.Sprintf("after removing every user watch: %d descriptors open, tables wd=%d path=%d byDir=%d (index keys %d) seen=%d %q byUser=%q", nv, len(st.Wd), len(st.Path), st.ByDir, st.ByDirKeys, len(st.Seen), trimAll(st.Seen, tmp), trimAll(st.ByUser, tmp)))
 		}
 	}
 	closed = true
